@@ -12,6 +12,7 @@ CONSTANTS
   Page = 4
   Header = 2
   NameMeta = 1
+  LongNames = {"b"}
   IndexEnd = 3
   MaxOps = 14
   MaxFile = 1000
